@@ -16,16 +16,44 @@ Theorem C11_group_scope_restored : forall s fuel g g' r,
 Proof. exact stmt_restores_stack. Qed.
 
 (* AutoHead affects only GET registered through Get / Combo.Get while it is on *)
-Theorem C11_autohead_get : forall g path hs,
-  get_in g path hs = route_in g m_get path hs :: (if autohead g then [route_in g m_head path hs] else []).
+(* ... and a .Headers(...) call on what Get returns constrains the GET route, never the HEAD twin *)
+Theorem C11_autohead_get : forall g path hs hdr,
+  get_in g path hs hdr = route_in g m_get path hs hdr :: (if autohead g then [route_in g m_head path hs false] else []).
 Proof. reflexivity. Qed.
 
+(* .Headers(...) on what Routes returns constrains the route of the last method only *)
+Theorem C11_headers_routes_last : forall hdr l r,
+  mark_last hdr (l ++ [r]) = l ++ [mkfreg (fr_method r) (fr_path r) (fr_hs r) hdr].
+Proof. exact mark_last_snoc. Qed.
+
+(* handlers are validated and wrapped over the CONCATENATED list: a group handler that is not a function
+   refuses the registration just as it would in the flat list, and with a HandlerWrapper installed the
+   group handlers are wrapped exactly once like the route's own (what runs is wrapped(outer) ++
+   wrapped(inner) ++ wrapped(own)) *)
+Theorem C11_checked_flat : forall p, checked (exec p) = checked (flatten p).
+Proof. exact checked_exec_flatten. Qed.
+Theorem C11_group_handlers_wrapped : forall wrap pp ph m path hs hdr,
+  run_trace wrap (reg_at pp ph m path hs hdr) = wrap_list wrap ph ++ wrap_list wrap hs.
+Proof. exact run_trace_reg_at. Qed.
+Theorem C11_group_handlers_validated : forall pp ph m path hs hdr,
+  callable (reg_at pp ph m path hs hdr) = forallb (fun h => negb (Nat.eqb 0 h)) ph && forallb (fun h => negb (Nat.eqb 0 h)) hs.
+Proof. exact callable_reg_at. Qed.
+
 Example C11_example :
-  exec [SAutoHead true; SGroup [47;97]%N [1] [SGet [47;98]%N [2]; SGroup [47;99]%N [3] [SRoute [80;79;83;84]%N [47;100]%N [4]]]; SGet [47;101]%N [5]]
-  = Some [mkfreg m_get [47;97;47;98]%N [1;2]; mkfreg m_head [47;97;47;98]%N [1;2];
-          mkfreg [80;79;83;84]%N [47;97;47;99;47;100]%N [1;3;4];
-          mkfreg m_get [47;101]%N [5]; mkfreg m_head [47;101]%N [5]].
+  exec [SAutoHead true; SGroup [47;97]%N [1] [SGet [47;98]%N [2] true; SGroup [47;99]%N [3] [SRoute [80;79;83;84]%N [47;100]%N [4] false]]; SGet [47;101]%N [5] false]
+  = Some [mkfreg m_get [47;97;47;98]%N [1;2] true; mkfreg m_head [47;97;47;98]%N [1;2] false;
+          mkfreg [80;79;83;84]%N [47;97;47;99;47;100]%N [1;3;4] false;
+          mkfreg m_get [47;101]%N [5] false; mkfreg m_head [47;101]%N [5] false].
 Proof. vm_compute. reflexivity. Qed.
+
+Example C11_example_headers_wrap :
+  exec [SRoutes [47;120]%N [71;69;84;44;80;85;84]%N [] [7] true] =
+    Some [mkfreg m_get [47;120]%N [7] false; mkfreg [80;85;84]%N [47;120]%N [7] true] /\
+  run_trace true (mkfreg m_get [47]%N [1;3;4] false) = [0;1;0;3;0;4] /\
+  checked (exec [SGroup [47;97]%N [0] [SGet [47;98]%N [2] false]]) = None.
+Proof. vm_compute. repeat split. Qed.
 
 Redirect "assum/C11.1" Print Assumptions C11_flat.
 Redirect "assum/C11.2" Print Assumptions C11_group_scope_restored.
+Redirect "assum/C11.3" Print Assumptions C11_checked_flat.
+Redirect "assum/C11.4" Print Assumptions C11_headers_routes_last.
